@@ -36,6 +36,22 @@ fn c16_sprite(rng: &mut Rng, i: u64) -> (Sprite, asemon::program::PaletteProgram
         _ => {}
     }
     let (mut sp, pp) = gen::gen_sprite(rng, &cfg);
+    if i % 4 == 1 {
+        // 9..16 tags drawn from three or four names (animations re-used under the same name), and layers that share
+        // names: by-name lookups have several candidates
+        let names = ["walk", "idle", "attack", "walk "];
+        let nf = sp.durations.len() as u16;
+        sp.tags.clear();
+        sp.tag_chunks.clear();
+        for k in 0..rng.range(9, 16) as u16 {
+            sp.tags.push(TagM { from: k % nf, to: (k % nf).max(rng.below(nf as u64) as u16), dir: (k % 3) as u8, repeat: 0, color: 0x0010_2030 + k as u32, name: names[rng.usize_below(if k < 3 { 3 } else { 4 })].to_string(), ud: None });
+        }
+        for (k, l) in sp.layers.iter_mut().enumerate() {
+            if rng.chance(1, 2) {
+                l.name = ["Shadow", "FX", "Outline"][k % 2 + rng.usize_below(2)].to_string();
+            }
+        }
+    }
     if i % 2 == 0 {
         // >= 8 external files and several tilesets: HashMap iteration order matters
         sp.ext_files.clear();
